@@ -19,7 +19,7 @@ Definition verdict (drv : driver) (sc : scen) (out : list fitem * result * bool)
   let '(t, res, unmod) := out in
   match res with
   | RDone fault =>
-      negb unmod && spec_ok (is_noneb (sc_fn sc)) fault (mtoks t)
+      negb unmod && spec_ok (is_noneb (sc_fn sc)) fault (mtoks t) && frame_ok t
       && (if is_wsgi drv then wsgi_ok fault t else true)
   | REscaped _ => false
   end.
@@ -54,3 +54,29 @@ Definition chk (drv : driver) (cr de di ds fn se rd : oexk) (af dc : bool) (a b 
                    sc_after_on_fault := af; sc_doc_early := dc; sc_opaque := false |} a b c d.
 
 Definition sweep : bool := sweepF chk.
+
+(** the ServerBase call sequence with an unserialisable return value: either the serialiser
+    is not reached with a return value (an earlier fault; the trace is as specified), or the
+    exception escapes get_out_string after method_return_object, and neither
+    method_exception_object nor method_context_closed is ever fired *)
+Definition escape_shape (k : exk) (out : list fitem * result * bool) : bool :=
+  let '(t, res, unmod) := out in
+  negb unmod && result_eqb res (REscaped k)
+  && fired Eret_obj (mtoks t) && negb (fired Eexc_obj (mtoks t)) && negb (fired Eclosed (mtoks t))
+  && (count_func (mtoks t) =? 1).
+Definition check_sb (sc : scen) (a b c d : option exk) : bool :=
+  if scen_adm true sc then
+    match sc_ser sc with
+    | Some k => let out := run (tabfire a b c d) sc (driver_prog DServerBase) in
+                verdict DServerBase sc out || escape_shape k out
+    | None => true
+    end
+  else true.
+Definition chk_sb (drv : driver) (cr de di ds fn se rd : oexk) (af dc : bool) (a b c d : oexk) : bool :=
+  match drv with
+  | DWsgi => true
+  | DServerBase =>
+      check_sb {| sc_create := cr; sc_decomp := de; sc_dispatch := di; sc_deser := ds;
+                  sc_fn := fn; sc_ser := se; sc_redirect := rd;
+                  sc_after_on_fault := af; sc_doc_early := dc; sc_opaque := false |} a b c d
+  end.
